@@ -213,10 +213,7 @@ class MapT(Ty):
             card = I.ctx.fresh_int(name + ".len")
             I.ctx.assume(card >= 0)
         m = smap.SMap(name, has, self.vtype, None, self.default_factory, card)
-        if self.keys is not None:
-            lo, hi = self.keys
-            x = z3.Int(I.ctx.fresh_name("k"))
-            I.ctx.assume(z3.ForAll([x], z3.Implies(z3.Select(has, x), z3.And(x >= lo, x <= hi))))
+        m.keydom = self.keys  # instantiated per materialised key (type invariant of the map)
         return m
 
 
